@@ -144,6 +144,15 @@ D = {
  "C17h": ("`print mem a : n` breaks rows on the absolute address", "start address not a multiple of 16 and a range crossing a 16-byte boundary: rows are not 16 bytes long"),
  "C18h": ("INT 21h/0Ah strips all trailing whitespace of the line", "input line ending in blanks / tabs (shorter than the capacity)"),
  "C20h": ("prompt `print mem a : n` accepts a+n == 2^20 (same change as C17g)", "`print mem 1048575 : 1` typed while stepping: panic"),
+ "C01h": ("INC/DEC/NEG of a word label skips the high byte when it would lie beyond the last byte", "word label at physical 0xFFFFF whose result changes the high byte (silently stale)"),
+ "C02h": ("shifts clear AF, also for a count of 0", "SHL/SHR/SAR with count 0 and AF = 1 before"),
+ "C03h": ("byte IMUL no longer clears OF when the product fits", "AH = 0xFF before (the pinned rule's clearing path) and OF = 1 on entry"),
+ "C04h": ("`mov sreg, word [mem]` reads its word through a slice (no wrap)", "segment register loaded from the word at physical 0xFFFFF / 0 (high byte silently 0)"),
+ "C05h": ("assembler maps upper-case `SS` as PUSH/POP operand to `ds`", "`PUSH SS` / `POP SS` in capitals with SS != DS"),
+ "C06h": ("a taken jump to its own line returns NEXT", "self-targeting taken conditional jump / LOOP (interpreter level)"),
+ "C07h": ("driver finishes a REP instruction in an inner loop while stepping (same idea as C07e)", "-i / trap flag and REPE/REPNE CMPS/SCAS ending on its comparison with CX > 0"),
+ "C09h": ("INT 10h/13h reads its string with `iter().skip().take()` (stops at the end of memory)", "string crossing 0xFFFFF: silently cut off, no abort"),
+ "C10h": ("assembler identifier regexes shortened to `\\w` (Unicode)", "label / data label / procedure name with a non-ASCII letter or digit, referenced by an instruction: Internal Error at run time"),
 }
 rows = []
 for d in sorted(glob.glob(os.path.join(ROOT, "seeded", "*"))):
